@@ -1,11 +1,14 @@
 (* Which variant of the modelled code the tree under /repo (and its dependency) carries.  The
    correspondence check and the evaluation models use these flags; the theorems are stated for
    explicit flag values.  When a proposed fix lands, flip its flag here (and replace the matching
-   _refuted/_partial theorems of props/C13.v by the full ones; done for the two flags that are true). *)
+   _refuted/_partial theorems of props/C13.v by the full ones; done for all three). *)
 From LR Require Import lib.Base.
 
-(* xbinary.UnmarshalBytes rejects a negative / overflowing length (dependency: not on this tree) *)
-Definition tree_guard : bool := false.
+(* the /repo decoders read their length-prefixed fields through utils.UnmarshalBytes / UnmarshalString, which
+   reject a negative / overflowing length before the dependency's xbinary.UnmarshalBytes is called
+   (repaired: proposed_fixes/applied/C13-varint-length-overflow; the dependency itself is unchanged and is
+   still compared, as it is, by the K kind `bytes`) *)
+Definition tree_guard : bool := true.
 (* field.NewFieldsFromKVString applies the 255-byte limit to the string it stores, after unquoting
    (repaired: proposed_fixes/applied/C13-unquote-expansion) *)
 Definition tree_fields_fx : bool := true.
